@@ -1,6 +1,7 @@
 package rules
 
 import (
+	"go/token"
 	"sort"
 	"strings"
 
@@ -18,7 +19,10 @@ func c20(c *Ctx) {
 	r.Decides("the five section merge functions agree: on a JSON parse error they return the old (previously effective) section, on an absent key the default (or empty) section, every MergeCfg call has the layered base first and the parsed overlay second, and a node entry that sets nothing of the section inherits the merged cluster strategy")
 	r.Decides("syncConfig stores each merge result in its own section of the new config unconditionally (so the 'old on error' value survives) and changes the cache only through updateCacheIfChanged")
 	r.Decides("the per-node selectors return the first matching node entry from inside the loop and the cluster strategy only after the loop; every section of the NodeSLO spec is produced")
+	r.Decides("a failed write of the NodeSLO (Create/Update) makes Reconcile return the error (the request is retried; the spec is not silently left at the previous layered values); the lazy initialisation of the config cache checks, fetches and applies the ConfigMap in one critical section")
 	r.Declines("field-by-field JSON overlay semantics of MergeCfg and equality of the delivered strategy with the layered value")
+
+	c20deliver(c)
 
 	merges := []string{"calculateResourceThresholdCfgMerged", "calculateResourceQOSCfgMerged", "calculateCPUBurstCfgMerged", "calculateSystemConfigMerged", "calculateHostAppConfigMerged"}
 	r.Rule("SIBLING: in each calculate*Merged: after json.Unmarshal failed every reachable return yields the parameter oldCfg; with the key absent the return does not depend on the ConfigMap data; MergeCfg(base, overlay): base derives from the default config / the merged cluster strategy, overlay from the parsed config; inside the node loop the no-override arm stores the cluster copy")
@@ -282,4 +286,64 @@ func derivesOnlyFromParam(v ssa.Value, p *ssa.Parameter) bool {
 		return false
 	}
 	return true
+}
+
+// c20deliver: the layered value reaches the NodeSLO object and the cache never regresses.
+func c20deliver(c *Ctx) {
+	r := c.R
+	r.Rule("ERR(deliver): in NodeSLOReconciler.Reconcile, after Client.Create or Client.Update of the NodeSLO returned a non-nil error every reachable return carries a non-nil error (so the work queue retries; no error class is swallowed on the write path)")
+	if fn := c.Fn("pkg/slo-controller/nodeslo", "NodeSLOReconciler", "Reconcile"); fn != nil {
+		n := 0
+		for _, cl := range an.Calls(fn, false) {
+			if !cl.Common().IsInvoke() || cl.Value() == nil {
+				continue
+			}
+			m := cl.Common().Method.Name()
+			if m != "Update" && m != "Create" {
+				continue
+			}
+			n++
+			reach := an.Explore(fn, an.After(cl), an.Facts{cl.Value(): an.NonNil}, nil)
+			bad := ""
+			for _, ret := range reach.Returns() {
+				if reach.EvalAt(ret.Results[1], ret) != an.NonNil {
+					bad = c.InstrPos(ret)
+				}
+			}
+			r.Check(bad == "", "ERR", sprintf("%s/%s-error-returned", fkey(fn), m), c.InstrPos(cl), "a failed "+m+" is returned to the work queue", "after Client."+m+" failed Reconcile can return a nil error (at "+bad+"): the NodeSLO keeps the previous layered values and nothing retries")
+		}
+		r.Floor("ERR", "NodeSLO writes in Reconcile", n, 2)
+	}
+	r.Rule("ATOMIC(lazy init): in SLOCfgHandlerForConfigMapEvent.IsCfgAvailable the availability test, the ConfigMap fetch and syncConfig all run with cfgCache.lock held (one critical section): otherwise the ConfigMap event handler can apply a newer version in between and the stale one is applied on top of it")
+	if fn := c.Fn("pkg/slo-controller/nodeslo", "SLOCfgHandlerForConfigMapEvent", "IsCfgAvailable"); fn != nil {
+		locks := an.NewAnyLocks()
+		var sites []ssa.Instruction
+		for _, b := range fn.Blocks {
+			for _, in := range b.Instrs {
+				switch x := in.(type) {
+				case *ssa.UnOp:
+					if x.Op == token.MUL && strings.HasSuffix(an.Path(x), ".available") {
+						sites = append(sites, x)
+					}
+				case ssa.CallInstruction:
+					if sn := an.ShortCallee(x.Common()); sn == "GetConfigMapForCache" || sn == "syncConfig" {
+						sites = append(sites, x)
+					}
+				}
+			}
+		}
+		var bad []string
+		for _, s := range sites {
+			held := false
+			for k := range locks.HeldAt(s) {
+				if strings.HasSuffix(k, ".lock") {
+					held = true
+				}
+			}
+			if !held {
+				bad = append(bad, c.InstrPos(s))
+			}
+		}
+		r.Check(len(sites) >= 3 && len(bad) == 0, "ATOMIC", fkey(fn)+"/one-critical-section", c.Pos(fn.Pos()), sprintf("%d steps of the lazy initialisation run under cfgCache.lock", len(sites)), "steps of the lazy initialisation run without cfgCache.lock: "+strings.Join(bad, ", ")+" - a ConfigMap version fetched before a newer event was applied is applied after it, and the cache regresses")
+	}
 }
